@@ -8,7 +8,7 @@ import (
 //verif:witness H_C19_rolling end
 //verif:witness H_C19_others end
 //verif:bound C19 quick rolling appender, one writer, 1..3 writes under arbitrary non-decreasing clock readings (interval 1 s / 10 min); every OpenFile after Start and every Write may fail (fault bit per call, path-split)
-//verif:bound C19 thorough 1..4 writes, otherwise as quick
+//verif:bound C19 thorough 1..5 writes, otherwise as quick
 //verif:assume C19 a failing OpenFile returns (nil, error), a failing Write returns an error and writes nothing (os.File contract); faults of the directory listing/removal are not modelled
 //verif:engine-only H_C19_rolling
 //verif:engine-only H_C19_others
@@ -31,7 +31,7 @@ func H_C19_rolling() {
 	vFaults(1, 1)
 	maxW := 3
 	if vTier() > 0 {
-		maxW = 4
+		maxW = 5
 	}
 	k := 1 + vChoose("writes", maxW)
 	next := byte('A')
